@@ -46,11 +46,13 @@ def signature_of(states):
             sig = {"fault": "cut", "at": x, "inflight": len(st["inflight"])}
         elif a == "Corrupt":
             sig = {"fault": "corrupt", "at": x}
+        elif a == "Replay":
+            sig = {"fault": "replay", "at": x}
         elif a == "LoseAck":
             sig = {"fault": "acklost", "at": 0}
         elif a == "ReceiverFinishesAfterCut":
             sig = {"fault": "acklost", "at": 0}
-        elif a == "Finish" and st["fault"] not in ("-", "cut", "corrupt", "acklost"):
+        elif a == "Finish" and st["fault"] not in ("-", "cut", "corrupt", "replay", "acklost"):
             sig = {"fault": st["fault"], "at": 0}
     fin = states[-1]
     sig["expect"] = {"okS": fin["okS"], "okR": fin["okR"], "dest": fin["dest"]}
@@ -114,6 +116,10 @@ def run_case(tid, kind, nrec, variant, sig, chunk, rng, badhash=None):
     rec = {"tid": tid, "kind": kind, "nrec": nrec, "variant": variant, "sig": sig, "chunk": chunk or 0}
     patched = None
     try:
+        if sig["fault"] == "replay":
+            # an earlier record in place of a later one of the same length: whole records only, random content
+            kind, variant = "file", 1
+            rec["kind"] = kind
         what, size = make_payload(kind, nrec, variant, sdir, rng)
         stale = kind == "file" and (tid % 2 == 0)
         if stale:
@@ -166,6 +172,12 @@ def run_case(tid, kind, nrec, variant, sig, chunk, rng, badhash=None):
                 lo, hi = offs[i - 1], offs[i]
                 w.fault = {"corrupt_at": lo + [0, 4, 30, hi - lo - 1][variant % 4] if hi - lo > 30 else lo}
                 before_all = True
+        elif fault == "replay":
+            offs = frame_offsets(total)
+            j = max(2, min(sig["at"], len(offs) - 1))          # record j (1-based) is shown as a copy of record j - 1
+            if offs[j] - offs[j - 1] == offs[j - 1] - offs[j - 2]:
+                w.fault = {"replay_rec": (offs[j - 1], offs[j], offs[j] - offs[j - 1])}
+            before_all = True
         elif fault == "acklost":
             w.fault = {"drop_ack": True}
         w.run(until=w.done, max_virtual=600.0)
@@ -297,7 +309,7 @@ def run(prop, tier):
         for key, sig in sorted(sigs.items(), key=lambda kv: str(kv[0])):
             n = key[0]
             kinds = [("file", v) for v in range(2 if quick else 4)]
-            if n >= 1 and (not quick or sig["fault"] in ("-", "cut")):
+            if n >= 1 and sig["fault"] != "replay" and (not quick or sig["fault"] in ("-", "cut")):
                 kinds.append(("dir", 0))
             for kind, variant in kinds:
                 for chunk in ([None] if quick else [None, 1000, 61]):
